@@ -954,3 +954,65 @@ Lemma reversed_range_witness :
   acl_parse [(tok_x, SV [IpVal (V4ANY + 167772169) (V4ANY + 167772161) ALL1]);
              (tok_x, SV [IpVal (V4ANY + 167772160) 0 (pmask 24)])] = PDangling.
 Proof. vm_compute. reflexivity. Qed.
+
+(* ---------- statements assembled for Properties_C42.v ---------- *)
+Lemma operators_numeric_except x y : y < TOP ->
+  (~ (x = V4ANY /\ lowv6 y) -> addr_lt x y = (x <? y) /\ addr_le x y = (x <=? y)) /\
+  (~ (x = V4NO /\ highv6 y) -> addr_gt x y = (y <? x) /\ addr_ge x y = (y <=? x)).
+Proof.
+  intros Hy. split; intros H; split;
+    [apply addr_lt_num| apply addr_le_num| apply addr_gt_num| apply addr_ge_num]; assumption.
+Qed.
+
+Lemma first_last_ends c : cv_ok c ->
+  first_addr (cv_val c) = cv_lo c /\ last_addr (cv_val c) = cv_hi c /\
+  (forall x, cv_in x c <-> cv_lo c <= x <= cv_hi c).
+Proof. intros H. split; [apply cv_first, H|]. split; [apply cv_last, H|]. intros x. reflexivity. Qed.
+
+Lemma parse_disjoint_same_union toks cs :
+  Forall tok_parsed toks -> vals_of toks = map cv_val cs -> Forall cv_ok cs -> quirk_free_vals cs ->
+  exists t n, acl_parse toks = POk (any4 toks) (any6 toks) t n /\
+    (forall x, In x (inorder t) -> first_addr x <= last_addr x) /\
+    (forall A x B y C, inorder t = A ++ x :: B ++ y :: C -> last_addr x < first_addr y) /\
+    (forall q, (exists w, In w (inorder t) /\ first_addr w <= q <= last_addr w) <-> (exists c, In c cs /\ cv_in q c)).
+Proof.
+  intros HP HV Hok Q. destruct (acl_parse_ok toks cs HP HV Hok Q) as (t & n & E & St).
+  exists t, n. split; [exact E|]. destruct (stored_disjoint cs t St) as [D1 D2].
+  split; [exact D1|]. split; [exact D2|]. exact (proj2 St).
+Qed.
+
+Lemma global_words :
+  parse_global s_all = Some (true, true) /\ parse_global s_ipv4 = Some (true, false) /\
+  parse_global s_ipv6 = Some (false, true) /\ parse_global tok_x = None.
+Proof. repeat split; reflexivity. Qed.
+
+Definition net10 : N := V4ANY + 167772160.           (* 10.0.0.0 *)
+Definition blk_lo : N := V4ANY + 3232237328.         (* 192.168.7.16 *)
+Definition blk_hi : N := V4ANY + 3232237335.         (* 192.168.7.23 *)
+
+Lemma ex_values_ok : Forall cv_ok [CNet net10 24; CRange blk_lo blk_hi 0; CNet db8_1 0].
+Proof.
+  unfold net10, blk_lo, blk_hi. repeat (apply Forall_cons || apply Forall_nil).
+  - cbn [cv_ok]. split; [lia|]. split; [rewrite V4ANY_val, TOP_val; lia|]. vm_compute. reflexivity.
+  - apply cv_ok_range0; rewrite ?V4ANY_val, ?TOP_val; lia.
+  - apply cv_ok_net0. unfold db8_1. rewrite TOP_val. lia.
+Qed.
+
+Lemma ex_plain_tokens cs : Forall tok_parsed (plain_toks cs) /\ vals_of (plain_toks cs) = map cv_val cs.
+Proof. split; [apply plain_toks_parsed| apply plain_toks_vals]. Qed.
+
+(* 10.0.0.0/8 next to 2001:db8::1, address 2001:db8::5 looked up *)
+Lemma ex_quirk_free_mixed : quirk_free [CNet net10 24; CNet db8_1 0] db8_5.
+Proof.
+  unfold net10. split.
+  - left. intros e He L. unfold lowv6 in L. cbn [points flat_map pts_of app In] in He.
+    change (2 ^ 24) with 16777216 in He. change (2 ^ 0) with 1 in He. unfold db8_1 in He.
+    rewrite V4ANY_val in *. lia.
+  - right. split; intros He; cbn [points probe_points flat_map map pts_of app In cv_val mk] in He;
+      [change (2 ^ 24) with 16777216 in He; change (2 ^ 0) with 1 in He; unfold db8_1 in He;
+       rewrite V4ANY_val, V4NO_val in *; lia|].
+    destruct He as [He|[He|[He|[]]]]; vm_compute in He; discriminate.
+Qed.
+
+Lemma ex_tameA : tameA db8_5 (cv_val (CRange db8_1 db8_5 0)).
+Proof. split; vm_compute; reflexivity. Qed.
